@@ -175,7 +175,15 @@ def run(ctx):
             nchecked += 1
             nm = short_id(callee_name(t))
             undo = {P.fn("LpgStore::discard_uncommitted_versions").id, P.fn("RdfStore::rollback_tx").id}
-            is_undo = all(x in undo for x in tg)
+            # a call is "undo only" when, with the undo routines cut out of the call graph, it writes no store cell
+            # (it may be one of them, or a helper wrapping them)
+            resid = set()
+            for x in tg:
+                if x in undo:
+                    continue
+                for fid in P.reach([x], edge_filter=lambda a_, b_: b_ not in undo):
+                    resid |= {c for c in E.writes_own(P.fns[fid]) if store_cells(c)}
+            is_undo = not resid
             ok = bi in ok_blocks or (is_undo and bi not in ok_blocks and commit.dominates(cblk, bi))
             ctx.ob("R2", "Session::commit#%s" % nm, ok,
                    what="%s (writes %s) runs in Session::commit without being dominated by the success of "
